@@ -38,7 +38,9 @@ class Prop(core.Prop):
     def bounds(self, tier):
         return {'time_blocks': [1, 2, 3], 'categories': [1, 2], 'tracers_per_category': [1, 2],
                 'layer_patterns': ['1', '3', '2+3', '3+1'], 'offsets': [(1, 1, 1), (13, 50, 1), (2, 3, 2)],
-                'tables': ['complete', 'missing-line']}
+                'tables': ['complete', 'missing-line'], 'header_flags': ['11', '01', '10', '00'],
+                'block_length_hours': [1, '1/3', '1/2 (thorough)'],
+                'entry_points': ['bpch1', 'bpch2', 'bpch (default / reader=bpch1 / reader=bpch2)']}
 
     def worker_init(self):
         core.load_lib()
@@ -65,6 +67,13 @@ class Prop(core.Prop):
             for off in ((1, 1, 1), (13, 50, 1), (2, 3, 2)):
                 for tables in ('complete', 'missing-line'):
                     yield dict(group, layers=lp, start=list(off), tables=tables)
+        # header flag variants and sub-hourly (20-minute) time blocks
+        for flags in ((0, 1), (1, 0), (0, 0)):
+            yield dict(group, layers='2+3', start=[1, 1, 1], tables='complete', flags=list(flags))
+        for lp in ('1', '2+3'):
+            yield dict(group, layers=lp, start=[1, 1, 1], tables='complete', dt=3)
+            if self.tier == 'thorough':
+                yield dict(group, layers=lp, start=[2, 3, 2], tables='complete', dt=2, flags=[0, 1])
 
     def recipe(self, case):
         ni, nj = 5, 4
@@ -79,15 +88,18 @@ class Prop(core.Prop):
                 vars_.append((cat, off, num, name, scale, unit, nl))
         # the first block defines the file dimensions: give it the largest layer count
         vars_.sort(key=lambda v: -v[6])
+        dt = 1.0 / case.get('dt', 1)
+        self.taus = [(175343.0 + t * dt, 175343.0 + (t + 1) * dt) for t in range(case['nt'])]
         for t in range(case['nt']):
             blk = []
             for k, (cat, off, num, name, scale, unit, nl) in enumerate(vars_):
                 data = (1e-9 * (1 + np.arange(nl * nj * ni) + 100 * k + 1000 * t)).reshape(nl, nj, ni).astype('f4')
-                blk.append(dict(category=cat, tracer=num - off, unit='v/v', tau0=175343.0 + t, tau1=175344.0 + t,
+                blk.append(dict(category=cat, tracer=num - off, unit='v/v', tau0=self.taus[t][0], tau1=self.taus[t][1],
                                 reserved='', start=tuple(case['start']), data=data))
             blocks.append(blk)
         r = dict(ftype='CTM bin 02', toptitle='GEOS-CHEM binary punch file v. 2.0', modelname='GEOS5_47L',
-                 modelres=(2.5, 2.0), halfpolar=1, center180=1, blocks=blocks)
+                 modelres=(2.5, 2.0), halfpolar=case.get('flags', [1, 1])[0],
+                 center180=case.get('flags', [1, 1])[1], blocks=blocks)
         return r, vars_
 
     def run_one(self, case):
@@ -116,7 +128,8 @@ class Prop(core.Prop):
                 fh.write(rf.diaginfo_line(off, cat, 'category ' + cat) + '\n')
         st = [h64(raw)]
         scope = dict(nt=case['nt'], ncat=case['ncat'], ntr=case['ntr'], layers=case['layers'],
-                     nested=bool(case['start'] != [1, 1, 1]), tables=case['tables'])
+                     nested=bool(case['start'] != [1, 1, 1]), tables=case['tables'],
+                     subhourly=bool(case.get('dt', 1) != 1), flags='%d%d' % tuple(case.get('flags', [1, 1])))
         vs = []
         ntrans = 0
 
@@ -147,7 +160,7 @@ class Prop(core.Prop):
                         kk, got.shape, got.ravel()[:3], want.shape, want.ravel()[:3]), **scope))
             t0 = np.asarray(fn.variables['tau0'][...], 'd').tolist()
             t1 = np.asarray(fn.variables['tau1'][...], 'd').tolist()
-            if t0 != [175343.0 + t for t in range(case['nt'])] or t1 != [175344.0 + t for t in range(case['nt'])]:
+            if t0 != [a for a, b in self.taus] or t1 != [b for a, b in self.taus]:
                 vs.append(viol('time-bounds', ('bpch1', 'noscale'), 'tau0 %r tau1 %r' % (t0, t1), **scope))
             out = os.path.join(d, 'out.bpch')
             with quiet():
@@ -282,5 +295,35 @@ class Prop(core.Prop):
             except Exception as e:
                 vs.append(viol('raises', ('bpch2', 'noscale' if ns else 'scaled'), '%s: %r' % (type(e).__name__, e),
                                exc=type(e).__name__, reader='bpch2', **scope))
+        # 5. the master class bpch(...) hands every option to whichever reader it uses
+        for rd in (None, 'bpch1', 'bpch2'):
+            for ns in (True, False):
+                try:
+                    with quiet():
+                        kw = dict(noscale=ns)
+                        if rd:
+                            kw['reader'] = rd
+                        fm = P.pncopen(path, format='bpch', **kw)
+                        fd = P.pncopen(path, format=rd or 'bpch1', noscale=ns)
+                    ntrans += 2
+                    for v in vars_:
+                        kk = key(v)
+                        if kk in fd.variables.keys():
+                            if kk not in fm.variables.keys():
+                                vs.append(viol('master-differs', ('bpch', rd or 'default'), '%s missing' % kk,
+                                               reader='master', **scope))
+                                continue
+                            a = np.asarray(fm.variables[kk][...])
+                            b = np.asarray(fd.variables[kk][...])
+                            if a.shape != b.shape or a.tobytes() != b.tobytes():
+                                vs.append(viol('master-differs', ('bpch', rd or 'default'),
+                                               '%s with noscale=%s: bpch(...) gives %s, %s(...) gives %s'
+                                               % (kk, ns, a.ravel()[:3], rd or 'bpch1', b.ravel()[:3]),
+                                               reader='master', **scope))
+                                break
+                except Exception as e:
+                    if case['tables'] == 'complete':
+                        vs.append(viol('raises', ('bpch', rd or 'default'), '%s: %r' % (type(e).__name__, e),
+                                       exc=type(e).__name__, reader='master', **scope))
         return result('viol' if vs else 'ok', vs, st, ntrans, h64('c18', sorted(case.items(), key=str)),
                       h64(raw) if not vs else None)
